@@ -409,12 +409,14 @@ Qed.
 
 Lemma shift_bogus_spec z : lx_wf z ->
   (lstart z + 2 <= lpos z \/ (lstart z + 1 <= lpos z /\ exists c, pk z 0 = Some c /\ c <> 62 /\ c <> 0)) ->
-  safe (shift_bogus z) (fun r => shifted z (fst (fst r)) (snd r) /\ inview (snd (fst r)) (fst (fst r))).
+  safe (shift_bogus z) (fun r => shifted z (fst (fst r)) (snd r) /\ inview (snd (fst r)) (fst (fst r)) /\
+                                 so (fst (fst r)) < so (snd (fst r))).
 Proof.
   intros Hw Hpre. unfold shift_bogus.
   eapply safe_bind; [apply bogus_loop_spec; assumption|]. cbn beta. intros [z1 n] (Ha & H2 & Hn & Hl). cbn [fst snd] in *.
-  destruct (shift_with_text z z1 2 n) as (t & v & z' & Ht & Hs & S1 & S2 & _); try assumption; try lia.
-  rewrite Ht. cbn [rbind]. rewrite Hs. cbn [rbind safe fst snd]. tauto.
+  destruct (shift_with_text z z1 2 n) as (t & v & z' & Ht & Hs & S1 & S2 & S3 & _); try assumption; try lia.
+  rewrite Ht. cbn [rbind]. rewrite Hs. cbn [rbind safe fst snd]. split; [exact S1|split; [exact S2|]].
+  destruct S1 as (_ & B2 & _). lia.
 Qed.
 
 Definition scan_post (z0 : lx) (r : lx * Z) : Prop :=
@@ -508,7 +510,7 @@ Qed.
 
 Definition markup_post (z : lx) (r : Z * sl * sl * lx) : Prop :=
   let '(ty, v, t, z') := r in
-  shifted z v z' /\ inview t v /\ (ty = CommentT \/ ty = TextT \/ ty = DoctypeT) /\ lpos z <= lpos z'.
+  shifted z v z' /\ inview t v /\ (ty = CommentT \/ ty = TextT \/ ty = DoctypeT) /\ lpos z <= lpos z' /\ so v < so t.
 
 Lemma read_markup_spec z : lx_wf z -> lpos z = lstart z + 2 -> safe (read_markup z) (markup_post z).
 Proof.
@@ -520,8 +522,8 @@ Proof.
     { apply (comment_loop_spec (mv z 2)); [apply (adv_wf z); [exact Hw|apply adv_mv; lia]|]. unfold fuel_of, lx_len. cbn [mv lbuf lpos]. lia. }
     cbn beta. intros r Hr. apply (scan_post_trans z) in Hr; [|apply adv_mv; lia]. destruct Hr as [Hr Hle]. cbn [mv lpos] in Hle.
     apply (text_shift_tail z 4 r (fun t v z' => (CommentT, v, t, z'))); try assumption; try lia.
-    intros t v z' S1 S2 _ S4. unfold markup_post. split; [exact S1|split; [exact S2|split; [tauto|]]].
-    destruct Hr as (_ & ? & _). lia. }
+    intros t v z' S1 S2 S3 S4. unfold markup_post. split; [exact S1|split; [exact S2|split; [tauto|]]].
+    destruct Hr as (_ & ? & _). destruct S1 as (_ & B2 & _). split; lia. }
   clear Ha.
   eapply safe_bind; [apply at_spec; [exact Hw|repeat constructor; lia]|]. cbn beta. intros a Ha.
   destruct a.
@@ -530,8 +532,8 @@ Proof.
     { apply (cdata_loop_spec (mv z 7)); [apply (adv_wf z); [exact Hw|apply adv_mv; lia]|]. unfold fuel_of, lx_len. cbn [mv lbuf lpos]. lia. }
     cbn beta. intros r Hr. apply (scan_post_trans z) in Hr; [|apply adv_mv; lia]. destruct Hr as [Hr Hle]. cbn [mv lpos] in Hle.
     apply (text_shift_tail z 9 r (fun t v z' => (TextT, v, t, z'))); try assumption; try lia.
-    intros t v z' S1 S2 _ S4. unfold markup_post. split; [exact S1|split; [exact S2|split; [tauto|]]].
-    destruct Hr as (_ & ? & _). lia. }
+    intros t v z' S1 S2 S3 S4. unfold markup_post. split; [exact S1|split; [exact S2|split; [tauto|]]].
+    destruct Hr as (_ & ? & _). destruct S1 as (_ & B2 & _). split; lia. }
   clear Ha.
   eapply safe_bind.
   { apply (atci_from_spec z [100; 111; 99; 116; 121; 112; 101] Hw); [repeat constructor; lia|lia|destruct Hw as (_ & _ & ?); lia]. }
@@ -550,11 +552,11 @@ Proof.
     { apply (doctype_loop_spec z2); [eauto using adv_wf|]. unfold fuel_of, lx_len. lia. }
     cbn beta. intros r Hr. apply (scan_post_trans z) in Hr; [|exact Hz2]. destruct Hr as [Hr Hle].
     apply (text_shift_tail z 9 r (fun t v z' => (DoctypeT, v, t, z'))); try assumption; try lia.
-    intros t v z' S1 S2 _ S4. unfold markup_post. split; [exact S1|split; [exact S2|split; [tauto|]]].
-    destruct Hr as (_ & ? & _). lia. }
+    intros t v z' S1 S2 S3 S4. unfold markup_post. split; [exact S1|split; [exact S2|split; [tauto|]]].
+    destruct Hr as (_ & ? & _). destruct S1 as (_ & B2 & _). split; lia. }
   eapply safe_bind; [apply shift_bogus_spec; [exact Hw|left; lia]|]. cbn beta.
-  intros [[v t] z'] [S1 S2]. cbn [fst snd safe markup_post] in *. split; [exact S1|split; [exact S2|split; [tauto|]]].
-  destruct S1 as (_ & _ & _ & _ & ?). lia.
+  intros [[v t] z'] (S1 & S2 & S3). cbn [fst snd safe markup_post] in *. split; [exact S1|split; [exact S2|split; [tauto|]]].
+  destruct S1 as (_ & _ & _ & _ & ?). split; [lia|exact S3].
 Qed.
 
 (* ---- shiftXML --------------------------------------------------------------------------------------- *)
